@@ -1,1 +1,4 @@
 From SimRes Require Import ResModel GenResFacts.
+Theorem C10_facts_pinned : gen_res_facts = mkResFacts NRFixed true true true true true true true.
+Proof. vm_compute. reflexivity. Qed.
+Print Assumptions C10_facts_pinned.
